@@ -91,6 +91,32 @@ def ob_affine(ctx, D, mode, sp_kind, N, shape):
     ctx.eq(cut(jd[(0, 1)]), A[0, 1], f"[{mode}] jacobian_dict(add_identity) off-diagonal")
 
 
+def ob_axis_spacing(ctx, D, mode, shape):
+    """Per-axis spacing: the derivative along axis j is divided by the spacing of axis j and by no other (exact relation
+    between two calls, also for modes whose kernels are not exact on polynomials, e.g. mode='gaussian')."""
+    from deepali.core.image import spatial_derivatives
+
+    s, sp = _spacing(ctx, "axis", 1, D)
+    n = 1
+    for m in shape:
+        n *= m
+    u = ctx.reals("u", [(((5 * i) % 13) - 6) / 4 for i in range(n)], nice=(-4, 4)).reshape((1, 1) + tuple(shape))
+    c = ctx.reals("c", 2.5, gt=0, nice=(0.25, 4))
+    kw = dict(mode=mode)
+    if mode == "gaussian":
+        kw["sigma"] = 0.7
+    which = [LET[d] for d in range(D)] + ["xy"]
+    base = spatial_derivatives(u, which=which, spacing=s, **kw)
+    for j in range(D):
+        scale = torch.ones(D)
+        scaled = spatial_derivatives(u, which=which, spacing=torch.cat([s[:j], (s[j] * c).reshape(1), s[j + 1:]]), **kw)
+        for d in range(D):
+            k = LET[d]
+            ref = base[k] / c if d == j else base[k]
+            ctx.eq(scaled[k], ref, f"[{mode}] d/d{k} with spacing of axis {LET[j]} scaled by c")
+        ctx.eq(scaled["xy"], base["xy"] / c if j < 2 else base["xy"], f"[{mode}] d2/dxdy with spacing of axis {LET[j]} scaled by c")
+
+
 def ob_bracket(ctx, D, mode, shape):
     from deepali.core import flow as F
 
@@ -203,6 +229,8 @@ def obligations(tier: str, seed: int):
                     qshape = tuple(max(m, 7) for m in shape) if D == 2 else tuple(max(m, 6) for m in shape)
                     obs.append((f"quadratic-D{D}-{mode}", ob_quadratic, dict(D=D, mode=mode, shape=qshape)))
         obs.append((f"affine-D{D}-default-mode", ob_affine, dict(D=D, mode=None, sp_kind="axis", N=1, shape=shapes[D][0])))
+        for mode in ("gaussian", "central", "bspline") if D == 2 or tier == "thorough" else ("gaussian",):
+            obs.append((f"axis-spacing-D{D}-{mode}", ob_axis_spacing, dict(D=D, mode=mode, shape=(4, 5) if D == 2 else (3, 4, 3))))
         for stride in ((1, 2) if tier == "quick" else (1, 2, 3)):
             obs.append((f"bspline-D{D}-stride{stride}", ob_bspline, dict(D=D, stride=stride, shape=(5, 6) if D == 2 else (5, 5, 6))))
     return obs
